@@ -155,6 +155,11 @@ func Load(root, dir, goos string, patterns ...string) (*Universe, error) {
 			return nil, &LoadError{"helper expansion failed: " + err.Error()}
 		}
 		u.Inlined = rep
+		rep2, err := u.InlineUnknownClosures(func(key string) bool { return KnownFuncs[key] })
+		if err != nil {
+			return nil, &LoadError{"closure expansion failed: " + err.Error()}
+		}
+		u.Inlined = append(u.Inlined, rep2...)
 	}
 	if NormalizeCFG {
 		if err := u.NormalizeAll(); err != nil {
@@ -195,9 +200,15 @@ var KnownFuncs map[string]bool
 // regenerate known_funcs.txt).
 func (u *Universe) FuncKeys() []string {
 	var out []string
+	seen := map[string]bool{}
 	for _, fn := range u.repoFuncs {
-		if fn.Parent() == nil {
-			out = append(out, u.funcKey(fn))
+		k := u.funcKey(fn)
+		if fn.Parent() != nil {
+			k = u.ClosureKey(fn)
+		}
+		if !seen[k] {
+			seen[k] = true
+			out = append(out, k)
 		}
 	}
 	sort.Strings(out)
@@ -264,6 +275,9 @@ func (u *Universe) FuncsUnder(prefix string) []*ssa.Function {
 	sort.Slice(out, func(i, j int) bool { return out[i].String() < out[j].String() })
 	return out
 }
+
+// ClosureSites returns the MakeClosure instructions that create fn.
+func (u *Universe) ClosureSites(fn *ssa.Function) []*ssa.MakeClosure { return u.closureOf[fn] }
 
 func topLevel(fn *ssa.Function) *ssa.Function {
 	for fn.Parent() != nil {
